@@ -320,7 +320,11 @@ PROPS = {
                 "value of its position at its depth. Table comparisons are made for position-determined configurations whose "
                 "reference trees contain no repetition/fifty-move draw. Non-trivial = distinct (root, depth, config, table, n) "
                 "cancellation points (counted individually) plus roots where at least one point fired with a move pushed. "
-                "evaluations = roots.",
+                "evaluations = roots. Restricted searches (search.Context.Ponder lines of 1-3 plies, run without a table as their only caller does): the "
+                "caller's context must be what the caller built after the halt and the same restricted search run afterwards returns the "
+                "unhalted value. C12/launchctx: an iterative analysis (searchctl.Iterative, gated) whose LAUNCH context is cancelled while "
+                "iteration k is held at the gate, or at the n-th cancellation poll inside iteration k: nothing of the interrupted "
+                "iteration is published, the stream ends, Halt() returns the last completed iteration.",
         "assumptions": COMMON_ASSUMPTIONS + ["cancellation is observed only through Done() polls (true for context.Context users); halting through searchctl's quit channel is exercised in C15/C16"],
         "level_text": "Fault enumeration: every cancellation poll of small searches, and a strided subset of larger ones (about "
                       "50k halting points per quick run), each followed by a search on the same table and compared with the run in "
